@@ -38,12 +38,14 @@ Moduli ==
      <<"large25", Dense(200, Seed + 5, 129)>>, <<"large40", Dense(317, Seed + 6, 3)>> >>
 NMod == IF Big THEN Len(Moduli) ELSE Len(Moduli) - 2
 Ops == <<"reduce", "add", "sub", "mul", "div", "neg", "dbl", "sqr", "pow", "inv", "mix">>
-NShapes == 14
+NShapes == 17
 
 VARIABLES phase, p1, p2, p3
 vars == <<phase, p1, p2, p3>>
 Init == phase = "pick" /\ p1 \in 1..NMod /\ p2 = 0 /\ p3 = 0
+\* shapes 15..17 only vary the exponent: generated for pow alone
 Pick == phase = "pick" /\ phase' = "done" /\ p2' \in 1..Len(Ops) /\ p3' \in 1..NShapes /\ UNCHANGED p1
+        /\ (p3' >= 15 => Ops[p2'] = "pow")
 Next == Pick
 Spec == Init /\ [][Next]_vars
 
@@ -75,6 +77,7 @@ Case ==
               [] p3 = 13 -> LET i == Max2(1, nb \div 3) IN <<U(Sub(ShlBytes(One, i), One)), U(Sub(ShlBytes(One, Max2(1, nb - i)), One))>>
               \* 14: multiples of 2^64 + 1 and 2^128 + 1: a gcd with the modulus that has several words and lowest word 1
               [] p3 = 14 -> <<U(Mul(Add(PowerOfTwo(64), One), Dense(12, Salt + 9, 201))), U(Mul(Add(PowerOfTwo(128), One), w))>>
+              [] p3 >= 15 -> <<U(Dense(nb, Salt + 3, 1)), U(Dense(nb, Salt + 4, 1 + (Salt % 200)))>>
       \* exponents: 0, 1, 2, 3, 2^16 + 1, one word, two words, three words (short for long moduli)
       ecap == IF nb <= 16 THEN 24 ELSE IF nb <= 60 THEN 12 ELSE 3
       e == CASE p3 = 1 -> <<>>
@@ -91,6 +94,15 @@ Case ==
              [] p3 = 12 -> NN(6)
              [] p3 = 13 -> NN(7)
              [] p3 = 14 -> NN(2)
+             \* full-width exponents of two and three words whose words differ where a sliding window straddles a word
+             \* boundary: low bits of an upper word set (a window starts there), its top bits set, the top bits of the word
+             \* below clear (15: the sparse pattern 2^127 + 2^64 + 1)
+             [] p3 = 15 -> IF nb > 60 THEN NN(9) ELSE Add(Add(PowerOfTwo(127), PowerOfTwo(64)), One)
+             [] p3 = 16 -> IF nb > 60 THEN NN(10) ELSE
+                           [i \in 1..16 |-> IF i = 16 THEN 165 ELSE IF i = 9 THEN 7 ELSE IF i = 8 THEN 0 ELSE Lcg8(i, Salt)]
+             [] p3 = 17 -> IF nb > 60 THEN NN(11) ELSE
+                           [i \in 1..24 |-> IF i = 24 THEN 129 ELSE IF i = 17 THEN 5 ELSE IF i = 16 THEN 64 ELSE IF i = 9 THEN 3
+                                              ELSE IF i = 8 THEN 0 ELSE IF i % 3 = 0 THEN 0 ELSE Lcg8(i, Salt)]
       m2 == IF p3 % 2 = 0 THEN m ELSE Moduli[1 + ((p1 + p3) % NMod)][2]
   IN [fam |-> name, shape |-> p3, op |-> op, m |-> mi, a |-> ab[1], b |-> ab[2], e |-> U(IF op = "pow" THEN e ELSE <<>>), m2 |-> U(m2)]
 
